@@ -11,7 +11,8 @@ CHUNK = 50
 RULE = ('message class x data set {absent; every length 1..3F+2 for F<=34; lengths within +-2 of kF (k=1..3) for larger F, '
         'capped at 200 kB} x maximum PDU length {every value 7..40} u {2^k-1, 2^k, 2^k+1 : k=6..32} x context ids (every odd '
         '1..255 on an inner grid) x command-set length varied through UID lengths 1..64; each case is run with the data set '
-        'given as bytes, as BytesIO and as a real temporary file through the real Association.send, and the three PDU byte '
+        'given as bytes, as BytesIO, as a real temporary file, and as BytesIO / file positioned behind a 169-byte header (the way '
+        'storage_scu hands over a Part-10 file) through the real Association.send, and all PDU byte '
         'sequences must be identical. distinct/non-trivial = distinct (#command fragments, #data fragments, size of last '
         'command fragment, size of last data fragment, maxlen class)')
 ASSUMPTIONS = ['F = maxlen - 6 (4-byte PDV length + context id + control header inside the P-DATA-TF variable field)',
@@ -91,10 +92,17 @@ def _run(case, source, tmpdir):
             ds = raw
         elif source == 'bytesio':
             ds = io.BytesIO(raw)
-        else:
+        elif source == 'file':
             ds = tempfile.TemporaryFile(dir=tmpdir)
             ds.write(raw)
             ds.seek(0)
+        else:
+            # the way storage_scu hands over a Part-10 file: positioned behind preamble and file meta
+            head = b'\0' * 128 + b'DICM' + bytes(range(37))
+            ds = io.BytesIO(head + raw) if source == 'bytesio-offset' else tempfile.TemporaryFile(dir=tmpdir)
+            if source != 'bytesio-offset':
+                ds.write(head + raw)
+            ds.seek(len(head))
     msg = msggen.make(case['cls'], data_set=ds, **kw)
     with stubs.patched_dul():
         # the association was created with the local default and negotiated down/up to maxlen afterwards
@@ -114,7 +122,7 @@ def run_case(case):
     tmpdir = os.environ.get('VP_TMP') or tempfile.gettempdir()
     seqs = {}
     key = None
-    for source in (('bytes', 'bytesio', 'file') if case['dslen'] else ('bytes',)):
+    for source in (('bytes', 'bytesio', 'file', 'bytesio-offset', 'file-offset') if case['dslen'] else ('bytes',)):
         try:
             msg, raw, pdus = _run(case, source, tmpdir)
         except Exception as exc:
